@@ -282,6 +282,38 @@ Definition getitem_bounds (v : bvec) (start stop : option nat) : nat * nat :=
 Definition getitem_slice (v : bvec) (start stop : option nat) : bvec :=
   bslice v (fst (getitem_bounds v start stop)) (snd (getitem_bounds v start stop)).
 
+(* ---- observations of a ByteVec (every public read): len(v), v.get_byte(off),
+   v.slice(a, b) (a fresh object, read through unwrap), v.get_word(off), v.unwrap(),
+   v[start:stop].  In the model they are functions of the chunk dict alone: nothing is
+   cached between a write and a read, and a read leaves the object as it is ---- *)
+Inductive obs : Type :=
+| OLen
+| OGet (off : nat)
+| OSliceQ (a b : nat)
+| OWord (off : nat)
+| OUnwrap
+| OItem (start stop : option nat).
+
+Definition observe (v : bvec) (q : obs) : fres B :=
+  match q with
+  | OLen => FRLen (blen v)
+  | OGet off => FRBytes [get_byte v off]
+  | OSliceQ a b => FRBytes (snd (unwrap (bslice v a b)))
+  | OWord off => FRBytes (snd (get_word v off))
+  | OUnwrap => FRBytes (snd (unwrap v))
+  | OItem start stop => FRBytes (snd (unwrap (getitem_slice v start stop)))
+  end.
+
+Definition abs_obs (q : obs) : fobs :=
+  match q with
+  | OLen => FOLen
+  | OGet off => FOGet off
+  | OSliceQ a b => FOSlice a b
+  | OWord off => FOWord off
+  | OUnwrap => FOAll
+  | OItem start stop => FOItem start stop
+  end.
+
 (* a ConcreteChunk (unwrap gives python bytes) *)
 Definition leaf_conc (c : chunk) : bool :=
   match c with Leaf sym _ _ _ => negb sym | Nest _ _ _ => true end.
@@ -344,6 +376,21 @@ Definition op_ok (o : op) : Prop :=
   | _ => True
   end.
 
+(* writes and observations interleaved in any way *)
+Inductive ev : Type := EOp (o : op) | EObs (q : obs).
+
+Fixpoint trace (v : bvec) (es : list ev) : list (fres B) :=
+  match es with
+  | [] => []
+  | EOp o :: r => trace (apply_op v o) r
+  | EObs q :: r => observe v q :: trace v r
+  end.
+
+Definition abs_ev (e : ev) : fev B :=
+  match e with EOp o => FEOp (abs_op o) | EObs q => FEObs (abs_obs q) end.
+
+Definition ev_ok (e : ev) : Prop := match e with EOp o => op_ok o | EObs _ => True end.
+
 End Model.
 
 Arguments Leaf {B}.
@@ -387,4 +434,8 @@ Arguments op_ok {B}.
 Arguments apply_op {B}.
 Arguments run_ops {B}.
 Arguments setitem_bounds {B}.
+Arguments EOp {B}.
+Arguments EObs {B}.
+Arguments abs_ev {B}.
+Arguments ev_ok {B}.
 Arguments getitem_bounds {B}.
